@@ -15,6 +15,7 @@ import (
 	"github.com/trustbloc/sidetree-core-go/pkg/patch"
 	"github.com/trustbloc/sidetree-core-go/pkg/processor"
 	"github.com/trustbloc/sidetree-core-go/pkg/versions/1_0/doctransformer/didtransformer"
+	"github.com/trustbloc/sidetree-core-go/pkg/versions/1_0/doctransformer/doctransformer"
 	"github.com/trustbloc/sidetree-core-go/pkg/versions/1_0/model"
 
 	"verif/mc/fx"
@@ -224,7 +225,7 @@ func c19KeyVariants(ver *fx.Version) []map[string]interface{} {
 
 func c19(r *hx.Run) {
 	fx.Quiet()
-	r.Rule = "internal documents built from every validator-accepted key variant (6 key types x {Ed25519/P-256/secp256k1 JWK, base58} x 8 purpose sets), all ordered pairs of a 24-variant subset (thorough: triples of 10), service variants (string/list/object endpoint x extra members) singly and in pairs, alias lists, foreign members; resolution models over commitments {both, recovery only, none} x deactivated x anchor origin {nil, string, object} x version id x times x references; transformer options base x method context x operation lists; TransformDocument on the real transformer must equal the independent projection (own base58/multibase) and metadata computed from the model; the same relation through DocumentHandler.ResolveDocument for published and unpublished DIDs. Non-trivial: every distinct (document, model, options) triple."
+	r.Rule = "(the generic doctransformer is run on the same jobs with plain options: document == internal document + id, same metadata, missing id refused) internal documents built from every validator-accepted key variant (6 key types x {Ed25519/P-256/secp256k1 JWK, base58} x 8 purpose sets), all ordered pairs of a 24-variant subset (thorough: triples of 10), service variants (string/list/object endpoint x extra members) singly and in pairs, alias lists, foreign members; resolution models over commitments {both, recovery only, none} x deactivated x anchor origin {nil, string, object} x version id x times x references; transformer options base x method context x operation lists; TransformDocument on the real transformer must equal the independent projection (own base58/multibase) and metadata computed from the model; the same relation through DocumentHandler.ResolveDocument for published and unpublished DIDs. Non-trivial: every distinct (document, model, options) triple."
 	ver := fx.NewVersion(fx.DefaultProtocol(), nil)
 	keyVars := c19KeyVariants(ver)
 	r.Extra["key_variants"] = len(keyVars)
@@ -404,72 +405,101 @@ func c19(r *hx.Run) {
 		if _, has := res.Document["publicKey"]; has {
 			fail("publicKey-leaks", "external document carries the internal publicKey section")
 		}
-		// metadata
-		md := map[string]interface{}{}
-		method := map[string]interface{}{"published": j.pi == 0}
-		if rm.RecoveryCommitment != "" {
-			method["recoveryCommitment"] = rm.RecoveryCommitment
-		}
-		if rm.UpdateCommitment != "" {
-			method["updateCommitment"] = rm.UpdateCommitment
-		}
-		if rm.AnchorOrigin != nil {
-			method["anchorOrigin"] = rm.AnchorOrigin
-		}
-		md["method"] = method
-		if rm.Deactivated {
-			md["deactivated"] = true
-		}
-		if j.pi == 0 {
-			canonicalID := ns + ":" + suffix
-			if rm.CanonicalReference != "" {
-				canonicalID = ns + ":" + rm.CanonicalReference + ":" + suffix
+		checkMD := func(tag string, documentMetadata interface{}) {
+			// metadata
+			md := map[string]interface{}{}
+			method := map[string]interface{}{"published": j.pi == 0}
+			if rm.RecoveryCommitment != "" {
+				method["recoveryCommitment"] = rm.RecoveryCommitment
 			}
-			md["canonicalId"] = canonicalID
-			eq := []interface{}{canonicalID}
-			for _, e := range rm.EquivalentReferences {
-				eq = append(eq, ns+":"+e+":"+suffix)
+			if rm.UpdateCommitment != "" {
+				method["updateCommitment"] = rm.UpdateCommitment
 			}
-			md["equivalentId"] = eq
-			md["created"] = time.Unix(int64(rm.CreatedTime), 0).UTC().Format(time.RFC3339)
-		} else {
-			md["equivalentId"] = []interface{}{ns + ":domain.example:label:" + suffix}
-		}
-		if rm.VersionID != "" {
-			md["versionId"] = rm.VersionID
-			if rm.UpdatedTime > 0 {
-				md["updated"] = time.Unix(int64(rm.UpdatedTime), 0).UTC().Format(time.RFC3339)
+			if rm.AnchorOrigin != nil {
+				method["anchorOrigin"] = rm.AnchorOrigin
 			}
-		}
-		gotMD := doc.Plain(res.DocumentMetadata).(map[string]interface{})
-		gm, _ := gotMD["method"].(map[string]interface{})
-		var pubOrder, unpubN string
-		if gm != nil {
-			if l, ok := gm["publishedOperations"].([]interface{}); ok {
-				var ks []string
-				for _, e := range l {
-					ks = append(ks, fmt.Sprint(e.(map[string]interface{})["canonicalReference"]))
+			md["method"] = method
+			if rm.Deactivated {
+				md["deactivated"] = true
+			}
+			if j.pi == 0 {
+				canonicalID := ns + ":" + suffix
+				if rm.CanonicalReference != "" {
+					canonicalID = ns + ":" + rm.CanonicalReference + ":" + suffix
 				}
-				pubOrder = strings.Join(ks, ",")
-				delete(gm, "publishedOperations")
+				md["canonicalId"] = canonicalID
+				eq := []interface{}{canonicalID}
+				for _, e := range rm.EquivalentReferences {
+					eq = append(eq, ns+":"+e+":"+suffix)
+				}
+				md["equivalentId"] = eq
+				md["created"] = time.Unix(int64(rm.CreatedTime), 0).UTC().Format(time.RFC3339)
+			} else {
+				md["equivalentId"] = []interface{}{ns + ":domain.example:label:" + suffix}
 			}
-			if l, ok := gm["unpublishedOperations"].([]interface{}); ok {
-				unpubN = fmt.Sprint(len(l))
-				delete(gm, "unpublishedOperations")
+			if rm.VersionID != "" {
+				md["versionId"] = rm.VersionID
+				if rm.UpdatedTime > 0 {
+					md["updated"] = time.Unix(int64(rm.UpdatedTime), 0).UTC().Format(time.RFC3339)
+				}
+			}
+			gotMD := doc.Plain(documentMetadata).(map[string]interface{})
+			gm, _ := gotMD["method"].(map[string]interface{})
+			var pubOrder, unpubN string
+			if gm != nil {
+				if l, ok := gm["publishedOperations"].([]interface{}); ok {
+					var ks []string
+					for _, e := range l {
+						ks = append(ks, fmt.Sprint(e.(map[string]interface{})["canonicalReference"]))
+					}
+					pubOrder = strings.Join(ks, ",")
+					delete(gm, "publishedOperations")
+				}
+				if l, ok := gm["unpublishedOperations"].([]interface{}); ok {
+					unpubN = fmt.Sprint(len(l))
+					delete(gm, "unpublishedOperations")
+				}
+			}
+			if canonOf(gotMD) != canonOf(md) {
+				fail(tag+"metadata:"+c19DiffKeys(gotMD, md), fmt.Sprintf("\n  impl: %s\n  ref : %s", hx.Trunc(canonOf(gotMD), 600), hx.Trunc(canonOf(md), 600)))
+			}
+			wantPub, wantUnpub := "", ""
+			if j.o.incPub {
+				wantPub = "p1,p2"
+			}
+			if j.o.incUnpub {
+				wantUnpub = "1"
+			}
+			if pubOrder != wantPub || unpubN != wantUnpub {
+				fail(tag+"metadata-operation-lists", fmt.Sprintf("published list %q (want %q), unpublished count %q (want %q)", pubOrder, wantPub, unpubN, wantUnpub))
 			}
 		}
-		if canonOf(gotMD) != canonOf(md) {
-			fail("metadata:"+c19DiffKeys(gotMD, md), fmt.Sprintf("\n  impl: %s\n  ref : %s", hx.Trunc(canonOf(gotMD), 600), hx.Trunc(canonOf(md), 600)))
-		}
-		wantPub, wantUnpub := "", ""
-		if j.o.incPub {
-			wantPub = "p1,p2"
-		}
-		if j.o.incUnpub {
-			wantUnpub = "1"
-		}
-		if pubOrder != wantPub || unpubN != wantUnpub {
-			fail("metadata-operation-lists", fmt.Sprintf("published list %q (want %q), unpublished count %q (want %q)", pubOrder, wantPub, unpubN, wantUnpub))
+		checkMD("", res.DocumentMetadata)
+		// the generic (non-DID) transformer: the internal document with its id, the same metadata
+		if !j.o.base && j.o.methodCtx == nil {
+			rm2 := j.rm.rm
+			rm2.Doc = document.Document(doc.Clone(j.d.d).(doc.Doc))
+			gres, gerr := doctransformer.New(doctransformer.WithIncludePublishedOperations(j.o.incPub), doctransformer.WithIncludeUnpublishedOperations(j.o.incUnpub)).TransformDocument(&rm2, info)
+			r.Eval()
+			if gerr != nil {
+				fail("generic-transform-error", gerr.Error())
+			} else {
+				wantDoc := doc.Clone(j.d.d).(doc.Doc)
+				wantDoc["id"] = info[document.IDProperty]
+				if canonOf(gres.Document) != canonOf(wantDoc) {
+					fail("generic-document:"+c19DiffKeys(gres.Document, wantDoc), fmt.Sprintf("\n  impl: %s\n  ref : %s", hx.Trunc(canonOf(gres.Document), 500), hx.Trunc(canonOf(wantDoc), 500)))
+				}
+				checkMD("generic-", gres.DocumentMetadata)
+			}
+			noID := protocol.TransformationInfo{}
+			for k, v := range info {
+				if k != document.IDProperty {
+					noID[k] = v
+				}
+			}
+			if _, e := doctransformer.New().TransformDocument(&rm2, noID); e == nil {
+				fail("generic-missing-id-accepted", "transformation without an id succeeded")
+			}
 		}
 		if ji%499 == 0 {
 			r.Sample(map[string]interface{}{"case": caseID, "external": hx.Trunc(got, 300)})
